@@ -899,3 +899,164 @@ V('18.5', 'C18', 'R18a', 'fire', RUN,
 V('18.6', 'C18', 'R18b', 'fire', STR,
   '''def concat(*args):''', '''def concat(*args, _buf=[]):
     _buf.append(len(args))''', 'mutable default argument')
+
+# ---------------------------------------------------------------- C04
+V('04.1', 'C04', 'R04b', 'fire', YTY,
+  '''            else:
+                new_receiver, new_context = \\
+                    utils.NO_VALUE, context.create_child_context()
+
+            return self._call(''', '''            else:
+                new_receiver, new_context = \\
+                    utils.NO_VALUE, context
+
+            return self._call(''', 'lambda evaluates in the defining context itself')
+V('04.2', 'C04', 'R04a', 'fire', SPE,
+  '''        def func():
+            new_context = context.create_child_context()
+            result = self.payload(''', '''        new_context = context.create_child_context()
+
+        def func():
+            result = self.payload(''', 'child created once per delegate, not per call')
+V('04.2b', 'C04', 'R04a', 'fire', SPE,
+  '''            new_context = context.create_child_context()
+            result = self.payload(''', '''            new_context = context
+            result = self.payload(''', 'payload runs in the caller context')
+V('04.2t', 'C04', '', 'silent', SPE,
+  '''            new_context = context.create_child_context()
+            result = self.payload(
+                *tuple(map(lambda t: t(new_context),
+                           positional_args)),
+                **dict(map(lambda t: (t[0], t[1](new_context)),
+                           keyword_args.items()))
+            )''', '''            call_scope = context.create_child_context()
+            result = self.payload(
+                *tuple(map(lambda t: t(call_scope),
+                           positional_args)),
+                **dict(map(lambda t: (t[0], t[1](call_scope)),
+                           keyword_args.items()))
+            )''', 'twin: renamed')
+V('04.3', 'C04,C09', 'R', 'fire', SYS,
+  '        __context__[str(i)] = value', '        __context__.parent[str(i)] = value',
+  'let writes into the parent')
+V('04.4', 'C04', 'R04c', 'fire', YTY,
+  '''        for i, param in enumerate(args):
+            context['$' + str(i + 1)] = param''', '''        for i, param in enumerate(args):
+            context.parent['$' + str(i + 1)] = param''', 'arguments published one scope up')
+V('04.5', 'C04', 'R04b', 'fire', YTY,
+  '''            elif self.method and not self.with_context:
+                new_receiver, new_context = \\
+                    args[0], context.create_child_context()''',
+  '''            elif self.method and not self.with_context:
+                new_receiver, new_context = \\
+                    args[0], engine.last_context''', 'method lambda uses some other context')
+V('04.6', 'C04', 'R04d', 'fire', SYS,
+  '''    context.register_function(wrapper)
+    return context''', '''    context.parent.register_function(wrapper)
+    return context''', 'def() registers into the outer scope')
+
+# ---------------------------------------------------------------- C12
+V('12.1', 'C12', 'R12a', 'fire', QUE,
+  '''def index_of(collection, item):''', '''def index_of(collection, item, in_=None):''',
+  'keyword name `in` is a word operator')
+V('12.1t', 'C12', '', 'silent', QUE,
+  '''def index_of(collection, item):''', '''def index_of(collection, item, input_=None):''',
+  'twin')
+V('12.2', 'C12', 'R12', 'fire', SPE,
+  '''def extension_method(func):
+    fd = _get_function_definition(func)
+    fd.is_method = True
+    fd.is_function = True''', '''def extension_method(func):
+    fd = _get_function_definition(func)
+    fd.is_method = True
+    fd.is_function = False''', 'extension methods no longer callable as functions')
+V('12.3', 'C12', 'R12c', 'fire', RUN,
+  '        predicate = lambda fd, ctx: fd.is_method and function_filter(fd, ctx)',
+  '        predicate = lambda fd, ctx: fd.is_function and function_filter(fd, ctx)',
+  'method calls select by is_function')
+V('12.4', 'C12', 'R12b', 'fire', 'yaql/language/conventions.py',
+  '''    def convert_parameter_name(self, name):
+        return self._to_camel_case(name)''', '''    def convert_parameter_name(self, name):
+        return name''', 'parameter names no longer camel-cased')
+V('12.5', 'C12', 'R12b', 'fire', SPE,
+  '''    if function is not None:
+        fd.is_function = function
+    if method is not None:
+        fd.is_method = method''', '''    if function is not None:
+        fd.is_function = function''', 'method= override dropped at registration')
+
+# ---------------------------------------------------------------- C19
+V('19.1', 'C19', 'R19a', 'fire', STR,
+  'string_module.ascii_letters', 'string_module.letters', 'revert')
+V('19.2', 'C19', 'R19b', 'fire', REG,
+  '''    for key, value in match.groupdict().items():
+        rec = {
+            'value': value,
+            'start': match.start(key),
+            'end': match.end(key)
+        }''', '''    for key, value in match.groupdict().items():
+        rec = {
+            'value': value,
+            'start': match.start(value),
+            'end': match.end(value)
+        }''', 'start/end by value')
+V('19.2b', 'C19', 'R19b', 'fire', REG,
+  '    for key, value in match.groupdict().items():',
+  '    for key, value in match.groupdict().values():', 'arity')
+V('19.3', 'C19', 'R19c', 'fire', STR,
+  '''def last_index_of_(string, sub, start, length):
+    """''', '''def last_index_of_(string, sub, start, length):
+    """ ''', 'no-op docstring edit (control)') if False else None
+V('19.3b', 'C19', 'R19c', 'fire', STR,
+  '''    if start < 0:
+        start += len(string)
+    if length < 0:
+        length = len(string) - start
+    return string.rfind(sub, start, start + length)''',
+  '''    if length < 0:
+        length = len(string) - start
+    return string.rfind(sub, start, start + length)''',
+  'lastIndexOf no longer adjusts a negative start')
+V('19.4', 'C19', 'R19c', 'fire', REG,
+  '''def not_matches_operator_regex(string, regexp):''',
+  '''def not_matches_operator_regex(string, regexp):
+    if not string:
+        return False''', 'polarity siblings drift')
+V('19.5', 'C19', 'R19a', 'fire', REG,
+  '        flags |= re.IGNORECASE', '        flags |= re.IGNORE_CASE', 'stdlib name typo')
+
+# ---------------------------------------------------------------- C20
+V('20.1', 'C20', 'R20a', 'fire', DAT,
+  '    return dt.astimezone(UTCTZ)', '    return dt - dt.utcoffset()', 'revert')
+V('20.1t', 'C20', '', 'silent', DAT,
+  '    return dt.astimezone(UTCTZ)',
+  '    return (dt - dt.utcoffset()).replace(tzinfo=UTCTZ)', 'twin: same instant, utc tag')
+V('20.1b', 'C20', 'R20a', 'fire', DAT,
+  '    return dt.astimezone(UTCTZ)', '    return dt.replace(tzinfo=UTCTZ)',
+  'relabels the wall clock as UTC')
+V('20.2', 'C20', 'R20b', 'fire', DAT,
+  '@specs.yaql_property(yaqltypes.DateTime())\ndef timestamp(dt):',
+  '@specs.yaql_property(DATETIME_TYPE)\ndef timestamp(dt):', 'revert')
+V('20.3', 'C20', 'R20c', 'fire', DAT,
+  '    return microseconds(timespan) / 3600000000.0',
+  '    return microseconds(timespan) / 360000000.0', 'hours off by ten')
+V('20.3t', 'C20', '', 'silent', DAT,
+  '    return microseconds(timespan) / 3600000000.0',
+  '    return microseconds(timespan) / 3.6e9', 'twin')
+V('20.4', 'C20', 'R20b', 'fire', DAT,
+  '''@specs.name('#operator_<')
+@specs.parameter('dt1', yaqltypes.DateTime())''', '''@specs.name('#operator_<')
+@specs.parameter('dt1', DATETIME_TYPE)''', 'comparison operand with the bare type')
+V('20.5', 'C20', 'R20a', 'fire', DAT,
+  '    return DATETIME_TYPE.fromtimestamp(timestamp, tz=zone)',
+  '    return DATETIME_TYPE.fromtimestamp(timestamp).replace(tzinfo=zone)',
+  'timestamp interpreted in local time then relabelled')
+V('20.6', 'C20', 'R20a', 'fire', DAT,
+  '    return (utc(dt) - DATETIME_TYPE(1970, 1, 1, tzinfo=UTCTZ)).total_seconds()',
+  '    return (dt.replace(tzinfo=UTCTZ) - DATETIME_TYPE(1970, 1, 1, tzinfo=UTCTZ)).total_seconds()',
+  'timestamp of the wall clock')
+V('20.7', 'C20', 'R20c', 'fire', DAT,
+  '    return (86400000000 * timespan.days +',
+  '    return (8640000000 * timespan.days +', 'day length off by ten')
+
+VARIANTS = [v for v in VARIANTS if v is not None]
